@@ -127,6 +127,25 @@ func substAddressField(m sdk.Msg, k int, addr string) bool {
 	return false
 }
 
+func upperCreator(m sdk.Msg) {
+	v := reflect.ValueOf(m)
+	if v.Kind() == reflect.Ptr {
+		v = v.Elem()
+	}
+	f := v.FieldByName("Creator")
+	if f.IsValid() && f.Kind() == reflect.String && f.CanSet() {
+		f.SetString(strings.ToUpper(f.String()))
+	}
+}
+
+// canonAddr re-encodes a bech32 address in its canonical (lower-case) spelling.
+func canonAddr(a string) string {
+	if x, err := sdk.AccAddressFromBech32(a); err == nil {
+		return x.String()
+	}
+	return a
+}
+
 func creatorField(m sdk.Msg) string {
 	v := reflect.ValueOf(m)
 	if v.Kind() == reflect.Ptr {
